@@ -118,6 +118,7 @@ def run(ctx):
     hidden_extra_bad = 0
     hidden_missing_trees = 0
     unsorted_langs = set()
+    cwidths = {"measured": 0, "assumed": 0, "ok": False, "detail": "probe did not run"}
     skip_langs = set()
     par = {"parchk": 0, "parzw": 0, "parbad": 0, "parflat": 0, "nschk": 0, "nsout": 0, "nsbad": 0, "nsflat": 0,
            "pschk": 0, "psout": 0, "psbad": 0, "psflat": 0, "cfcchk": 0, "cfcout": 0, "cfcbad": 0, "cfcflat": 0, "nnschk": 0, "nnsout": 0, "nnsbad": 0, "nnsflat": 0, "npschk": 0, "npsout": 0, "npsbad": 0, "npsflat": 0, "cparchk": 0, "cparbad": 0, "cbfchk": 0, "cbfout": 0, "cbfbad": 0, "cbfflat": 0, "cbfskip": 0, "nfcbchk": 0, "nfcbout": 0, "nfcbbad": 0, "nfcbflat": 0, "ndfrchk": 0, "ndfrbad": 0, "ndfrflat": 0, "pdfrchk": 0, "pdfrbad": 0, "pdfrflat": 0, "znschk": 0, "znsout": 0, "znsbad": 0, "zpschk": 0, "zpsout": 0, "zpsbad": 0, "pgenbad": 0, "znsoutpar": 0, "znsoutfollow": 0, "znsoutzw": 0, "zpsoutpar": 0, "zpsoutid": 0, "zpsoutzw": 0, "fcbchk": 0, "fcbout": 0, "fcbbad": 0, "fcbflat": 0, "dfrchk": 0, "dfrbad": 0, "dfrflat": 0}
@@ -132,6 +133,15 @@ def run(ctx):
         if r is None:
             continue
         cid, corr, judge, kv = r
+        if kv.get("cwidthcase") == "1":
+            cwidths.update({"measured": int(kv.get("measured", "0") or 0), "assumed": int(kv.get("assumed", "0") or 0), "ok": corr == "ok",
+                            "detail": detail(corr, "tie:cursor-index-widths") if corr != "ok" else "all index fields hold 32 bits"})
+            if corr != "ok":
+                ctx.violation("tie", "an index field of the tree cursor / child iterators is narrower than the Nat-valued ports assume: %s" % cwidths["detail"][:500],
+                              {"case": cid, "clause": "tie:cursor-index-widths", "verdict": corr[:1200],
+                               "correspondence": "TsVerif.C06.assumedCursorBits vs lib/src/tree_cursor.h:TreeCursorEntry, tree_cursor.c:CursorChildIterator, node.c:NodeChildIterator"},
+                              fingerprint={"lang": "-", "clause": "tie:cursor-index-widths", "defect": "tie:cursor-index-widths"}, found_input=False)
+            continue
         evals += 1
         lang = cid.rsplit("-", 1)[0]
         spec = specs.get(cid, "")
@@ -198,6 +208,12 @@ def run(ctx):
                                    "correspondence": "TsVerif.C06.{Cursor,NodePort,NodeNav,Sexp} vs lib/src/{tree_cursor.c,node.c,subtree.c}"},
                                   fingerprint={"lang": lang, "clause": cl, "defect": cl}, found_input=False)
     ctx.oblige("corr:ports=node.c+tree_cursor.c+sexp-writer", corr_bad == 0, "%d trees with disagreements" % corr_bad)
+    if not ctx.replay:
+        ctx.oblige("tie:cursor-and-iterator-index-widths-measured>=assumedCursorBits(child_index, structural_child_index, descendant_index of TreeCursorEntry / "
+                   "CursorChildIterator / NodeChildIterator hold 32 bits; all-ones entry read back through ts_tree_cursor_current_descendant_index)",
+                   cwidths["ok"] and cwidths["measured"] >= cwidths["assumed"] > 0,
+                   "%d fields measured, %d assumed: %s" % (cwidths["measured"], cwidths["assumed"], cwidths["detail"][:300]))
+    ctx.coverage["cursor_index_field_widths"] = cwidths
     ctx.oblige("corr:sexpOK-holds-on-real-trees(hypothesis of sexp_spec; trees with a hidden MISSING node are outside the theorem and "
                "reported by the judge)", sexp_hyp_bad == 0, "%d trees" % sexp_hyp_bad)
     ctx.oblige("corr:anonLeafOK-holds-on-real-trees(hypothesis of named_child_spec)", anon_hyp_bad == 0, "%d trees" % anon_hyp_bad)
